@@ -1,7 +1,7 @@
 (* C08 - lexicase filters by randomly ordered cases; winners are never dominated. *)
 From Coq Require Import List ZArith QArith.
 Import ListNotations.
-From UEC Require Import Base.Dist Ec.Select Ec.SelectProps Ec.LexProps Ec.TournamentCor.
+From UEC Require Import Base.Dist Ec.Select Ec.SelectProps Ec.LexProps Ec.TournamentCor Ec.LexDecisive.
 
 (* at each case exactly the candidates with the best result on that case remain *)
 Theorem C08_filter_keeps_best : forall pol pop c C i,
@@ -31,6 +31,23 @@ Theorem C08_filtering_succeeds : forall pol pop cases C,
   C <> nil -> complete pol pop cases C -> exists S, lex_run pol pop cases C = inl S /\ S <> nil.
 Proof. exact lex_run_ok. Qed.
 Print Assumptions C08_filtering_succeeds.
+
+(* a closed form for ANY number of cases (no enumeration of the n! case orders): when every configured case has results
+   for everybody and exactly one best individual w c, the first case of the shuffled order decides, so individual i is
+   selected with probability #{c < n : w c = i} / n; rests on counting the permutations by their head *)
+Theorem C08_permutations_by_head : forall P l,
+  length (filter (hdP P) (perms l)) = (length (filter P l) * fact (length l - 1))%nat.
+Proof. exact perms_heads. Qed.
+Print Assumptions C08_permutations_by_head.
+
+Theorem C08_decisive_cases : forall pol pop n w,
+  (2 <= length pop)%nat ->
+  (forall c, (c < n)%nat -> missing pol pop c (seq 0 (length pop)) = false /\
+                           filter_case pol pop c (seq 0 (length pop)) = [w c]) ->
+  forall i, (1 <= n)%nat ->
+  prob (lexicase pol pop n) (is_idx i) == qnat (length (filter (fun c => Nat.eqb (w c) i) (seq 0 n))) / qnat n.
+Proof. exact lexicase_decisive. Qed.
+Print Assumptions C08_decisive_cases.
 
 (* selection probability = average over the case orders of the share among the final survivors *)
 Theorem C08_law : forall pol pop n i,
